@@ -5,6 +5,7 @@ From SK Require Import model.C15_Model proof.C15_Proof.
 From SK Require Import model.C15_Ext proof.C15_Ext proof.C15_ExtQ proof.C15_ExtP proof.C15_ExtS proof.C15_ExtL proof.C15_ExtM proof.C15_ExtH proof.C15_ExtEx.
 From SK Require Import model.C15_View proof.C15_View.
 From SK Require Import model.C16_Model proof.C15_ViewGraph.
+From SK Require Import proof.C16_Defs model.C15_Repr proof.C15_Repr.
 Local Open Scope string_scope.
 
 (** ** 1. The store invariant *)
@@ -651,6 +652,14 @@ Theorem C15_view_graph_current : forall (n k nb : nat) (ops : list op3) (b : nat
 Proof. exact view_graph_current. Qed.
 Print Assumptions C15_view_graph_current.
 
+(** the cache works: right after an access of an existing backend, a second access hands out the same graph WITHOUT
+    rebuilding and changes nothing (and so on until a store method is called on the network: [C15_view_store], [bumps]) *)
+Theorem C15_view_cached : forall (w : world3) (b : nat), (b < length (backends w))%nat ->
+  (access (access w b).1.1 b).1.2 = false /\ (access (access w b).1.1 b).2 = (access w b).2 /\
+  (access (access w b).1.1 b).1.1 = (access w b).1.1.
+Proof. exact access_cached. Qed.
+Print Assumptions C15_view_cached.
+
 (** the exports never read the per-rule id counters (the only part of the store a snapshot with the current version may
     differ in, [C15_view_inv_meaning]): same content, same graphs — for EVERY flag combination of the bipartite export *)
 Theorem C15_exports_ignore_counters : forall (fl : bflags) (b : bool) (s s' : net),
@@ -660,3 +669,44 @@ Theorem C15_exports_ignore_counters : forall (fl : bflags) (b : bool) (s s' : ne
   hypergraph_to_species_graph b s' = hypergraph_to_species_graph b s.
 Proof. exact exports_ignore_counters. Qed.
 Print Assumptions C15_exports_ignore_counters.
+
+(** ** 9. (round 5) The three __repr__ methods (model/C15_Repr.v): RXNSide, HyperEdge, CRNHyperGraph.
+    [repr_net s] = the lines [repr_lines s] joined by newlines; the reaction lines are [repr_edge] of [sorted_edges s]
+    (sorted(edge_list(), key=_edge_key): key = (id without its digits, int(the digits)), Python's stable sort). *)
+
+(** repr(side) is a faithful rendering: RXNSide.from_str reads it back, for every side whose labels are in the label domain of
+    the text format ([side_labels_ok]: a letter, then anything but white space and + * | >; the known limit of the format,
+    finding C16:strings-label-domain) — RXNSide.__repr__ IS the side printer of the reaction-string export *)
+Theorem C15_repr_side_parses : forall (sd : side), side_labels_ok sd = true -> from_str (repr_side sd) = Some sd.
+Proof. exact repr_side_parses. Qed.
+Print Assumptions C15_repr_side_parses.
+
+(** the reaction lines: a permutation of the stored reactions in insertion order (nothing lost, nothing twice), sorted by the
+    key, and — stability — reactions with the same key (e.g. ids "r_1" and "r1_") stay in insertion order *)
+Theorem C15_repr_order : forall (s : net),
+  sorted_edges s ≡ₚ edge_seq s /\
+  StronglySorted (fun p q => ekey_le (edge_key p.1) (edge_key q.1) = true) (sorted_edges s) /\
+  forall k, filter (fun p => edge_key p.1 = k) (sorted_edges s) = filter (fun p => edge_key p.1 = k) (edge_seq s).
+Proof. exact sorted_edges_spec. Qed.
+Print Assumptions C15_repr_order.
+
+(** under the store invariant every stored reaction has exactly one line, and no line shows anything else *)
+Theorem C15_repr_complete : forall (s : net), Inv s ->
+  (forall e rx, (e, rx) ∈ sorted_edges s <-> edges s !! e = Some rx) /\ NoDup (sorted_edges s).*1.
+Proof. exact sorted_edges_stored. Qed.
+Print Assumptions C15_repr_complete.
+
+(** the key order is a total preorder that identifies only equal keys (so "sorted" above is meaningful) *)
+Theorem C15_repr_key_order : forall a b c : string * N,
+  (ekey_le a b = true \/ ekey_le b a = true) /\
+  (ekey_le a b = true -> ekey_le b c = true -> ekey_le a c = true) /\
+  (ekey_le a b = true -> ekey_le b a = true -> a = b).
+Proof. exact (fun a b c => conj (ekey_le_total a b) (conj (ekey_le_trans a b c) (ekey_le_antisym a b))). Qed.
+Print Assumptions C15_repr_key_order.
+
+(** shape of the text: header, the reaction lines, then the species line and — exactly when labels exist — the label line *)
+Theorem C15_repr_shape : forall (s : net),
+  exists tail, repr_lines s = "CRNHyperGraph:" :: ((fun p => "  " +:+ repr_edge p.1 p.2) <$> sorted_edges s) ++ tail /\
+               length tail = (if decide (mol s = ∅) then 1 else 2)%nat.
+Proof. exact repr_lines_shape. Qed.
+Print Assumptions C15_repr_shape.
